@@ -2615,4 +2615,16 @@ theorem filter_window_next (l : List Int) (h : Sep 1 id l) (a b : Nat) (hab : a 
     have e2 : decide (l[i] < l[b] + 1) = false := decide_eq_false (by omega)
     rw [e1, e2]
 
+/-! ### derived kymographs (round H) -/
+
+/-- showing all `P` rows of a reconstructed kymograph image shows the image -/
+theorem pickRows_range_transposeN (P : Nat) (rows : List (List Int)) :
+    pickRows (List.range P) (transposeN P rows) = transposeN P rows := by
+  unfold pickRows transposeN
+  apply List.ext_getElem
+  · simp
+  · intro i h1 h2
+    simp at h1 h2 ⊢
+    simp [h1]
+
 end Verif.C03
